@@ -70,6 +70,9 @@ partial def parsePipe (e : SExp) : Pipe :=
   | "offn" => .src (.ofFn (parseVal (arg 0)))
   | "start" => .src (.ofFn (parseVal (arg 0)))
   | "iter" => .src (.iter (xs.map parseVal))
+  -- from_iter over a collection whose `into_iter()` is counted (a user closure run once per subscription,
+  -- never at construction): observably `defer (from_iter xs)`
+  | "iterl" => .defer (.src (.iter (xs.map parseVal)))
   | "repeat" => .src (.repeat_ (parseVal (arg 0)) (arg 1).nat)
   | "empty" => .src .empty
   -- the harness turns the `()` items of never/throw into U; they emit none
